@@ -315,6 +315,64 @@ impl Drop for SharedLockGuard<'_> {
 }
 
 // =============================================================================
+// Update Lock (serialises read-modify-write cycles)
+// =============================================================================
+
+/// Exclusive lock held while a state file is loaded, modified and saved again.
+///
+/// It is taken on a sidecar `.<name>.lock` file: the state file itself is replaced by a
+/// rename on every save, so a lock on it cannot span the load and the save, and two
+/// processes appending to the history at the same time would each write back what they
+/// loaded plus their own entry - the later rename dropping the other's entry.
+#[derive(Debug)]
+pub struct UpdateLock {
+    file: File,
+}
+
+impl UpdateLock {
+    /// Take the lock for `path`, waiting at most [`DEFAULT_LOCK_TIMEOUT_MS`].
+    ///
+    /// Returns `None` after a warning if the lock cannot be taken in time.
+    #[must_use]
+    pub fn acquire(path: &Path, file_description: &str) -> Option<Self> {
+        let name = path.file_name().and_then(|n| n.to_str()).unwrap_or("state");
+        let lock_path = path.with_file_name(format!(".{name}.lock"));
+        let file = ensure_parent_dir(&lock_path).and_then(|()| {
+            OpenOptions::new()
+                .create(true)
+                .truncate(false)
+                .write(true)
+                .open(&lock_path)
+        });
+        let outcome = match file {
+            Ok(file) => try_lock_exclusive_with_timeout(&file, DEFAULT_LOCK_TIMEOUT_MS)
+                .map(|()| Self { file })
+                .map_err(|e| e.to_string()),
+            Err(e) => Err(e.to_string()),
+        };
+        match outcome {
+            Ok(lock) => {
+                Some(lock)
+            }
+            Err(e) => {
+                crate::output::print_warning_full(
+                    &format!("Failed to acquire update lock on {file_description}"),
+                    Some(&format!("{}: {e}", lock_path.display())),
+                    Some(&format!("{file_description} update skipped")),
+                );
+                None
+            }
+        }
+    }
+}
+
+impl Drop for UpdateLock {
+    fn drop(&mut self) {
+        unlock_file(&self.file);
+    }
+}
+
+// =============================================================================
 // Atomic File Writing
 // =============================================================================
 
